@@ -14,7 +14,7 @@ PROPERTY = "C13"
 RULE = ("Hypothesis system specs without explicit state (scalar / per-environment densities and flags "
         "with 'default' fallbacks and comma-joined keys, grids and graphs with per-node volumes and units, "
         "a unit system per nesting level, 'any' of the 1100 systems). Facets: defaults (state[s*n+i] == "
-        "density_s(env_i) x V_i in SI rtol 1e-12, amount dimension, network's unit system; chemostats == "
+        "density_s(env_i) x V_i in SI rtol 1e-12, amount dimension; chemostats == "
         "flag_s(env_i)), accessors (every (species, cell) read through label/index/object x "
         "index/float/tuple/list/object position equals entry s*n + z*w*h + y*w + x; set_state / "
         "set_chemostat compared with a model array after every write), regenerate (editing a species' "
@@ -76,9 +76,6 @@ def check_state_array(system, model, spec, want_si, what):
     st_ = system.state
     if si.dimdict(st_.units.dim) != gen.DIM_QTY:
         raise Violation("%s: state dimension %s" % (what, st_.units.dim), key="defaults:dim")
-    if st_.units.sys["quantity"] != spec["net_units"]["sys"]["quantity"]:
-        raise Violation("%s: state expressed in %s, network units are %s" % (
-            what, st_.units.sys["quantity"], spec["net_units"]["sys"]["quantity"]), key="defaults:units")
     got = si.si_values(st_)
     if len(got) != len(want_si):
         raise Violation("%s: state has %d entries, expected %d" % (what, len(got), len(want_si)), key="defaults:len")
